@@ -98,8 +98,12 @@ impl GenCfg {
 const ALPH: &[&str] = &[
   "a", "b", "c", " ", ";", "{", "}", "\n", "\n", "xy", "\t", "fn", "\r", "a", "\n",
 ];
+// besides 1-4 byte characters: characters whose continuation bytes are a delimiter's byte with the top
+// bit set (U+FEFF = EF BB BF, » = C2 BB, 们 = E4 BB AC: ';' | 0x80;  U+008A = C2 8A, ⊻ = E2 8A BB:
+// '\n' | 0x80;  U+00A0 = C2 A0: ' ' | 0x80;  ý = C3 BD: '}' | 0x80; û = C3 BB)
 const ALPH_MB: &[&str] = &[
-  "a", "é", "日", "😀", ";", "\n", "{", " ", "b", "\n", "}", "ß", "\u{2028}", "x\r",
+  "a", "é", "日", "😀", ";", "\n", "{", " ", "b", "\n", "}", "ß", "\u{2028}", "x\r", "\u{feff}", "»", "们", "\n",
+  "\u{8a}", "⊻", "\u{a0}", "ý", "û",
 ];
 
 pub fn idx(sel: u16, n: usize) -> usize {
@@ -112,9 +116,27 @@ pub fn idx(sel: u16, n: usize) -> usize {
 
 pub fn text(ascii: bool, max_tokens: usize) -> BoxedStrategy<String> {
   let alph: &'static [&'static str] = if ascii { ALPH } else { ALPH_MB };
-  vec(any::<u16>(), 0..=max_tokens)
-    .prop_map(move |v| v.into_iter().map(|s| alph[idx(s, alph.len())]).collect::<String>())
-    .boxed()
+  let short = vec(any::<u16>(), 0..=max_tokens)
+    .prop_map(move |v| v.into_iter().map(|s| alph[idx(s, alph.len())]).collect::<String>());
+  // now and then a long text: a short pattern repeated beyond a size at which implementations switch
+  // strategy (lines of more than 512 columns, texts of more than 4096 / 8192 bytes), either as one
+  // line or as many
+  let long = (vec(any::<u16>(), 1..=8), 0u8..6u8, any::<bool>()).prop_map(move |(v, k, one_line)| {
+    let mut pat: String = v.into_iter().map(|s| alph[idx(s, alph.len())]).collect();
+    if one_line {
+      pat = pat.replace('\n', "");
+    }
+    if pat.is_empty() {
+      pat.push('a');
+    }
+    let want = [520usize, 520, 1100, 1100, 4100, 8200][k as usize];
+    let mut out = String::new();
+    while out.len() < want {
+      out.push_str(&pat);
+    }
+    out
+  });
+  prop_oneof![300 => short, 1 => long].boxed()
 }
 
 /// bytes of a binary leaf: valid UTF-8, or with injected invalid sequences
@@ -491,10 +513,12 @@ pub fn concretize_map(t: &str, am: &AbsMap, ascii: bool) -> MapSpec {
         } else if am.content_mode == 3 && src == 0 && a.mapped >= 2 {
           Some(Orig { src, line: l, col: c + 2, name })
         } else {
+          // now and then far away, so that consecutive segments differ by several hundred lines /
+          // columns (multi-digit VLQ deltas of both signs)
           Some(Orig {
             src,
-            line: 1 + idx(a.oline, 4) as u32,
-            col: idx(a.ocol, 7) as u32,
+            line: 1 + idx(a.oline, 4) as u32 + if a.oline % 16 == 5 { 600 } else { 0 },
+            col: idx(a.ocol, 7) as u32 + if a.ocol % 16 == 9 { 700 } else { 0 },
             name,
           })
         }
